@@ -47,6 +47,10 @@ MISC = {
     # a class of the package that is named like a class of another library used elsewhere in the package
     "bigdecimal.py": "class Decimal:\n    pass\n",
     "money.py": "from decimal import Decimal\n\n\ndef samesuffix_pay(d: Decimal) -> Decimal:\n    ...\n",
+    # an exception class of the package used as a type; Python builtins without Safe-DS counterpart
+    "excdef.py": "class ExcclsError(Exception):\n    def detail(self) -> int:\n        ...\n\n\ndef exccls_same() -> ExcclsError:\n    ...\n",
+    "excuse.py": "from clomisc.excdef import ExcclsError\n\n\ndef exccls_other(e: ExcclsError) -> int:\n    ...\n",
+    "rawbuiltins.py": "def rawbuiltin_use(b: bytes, o: object) -> complex:\n    ...\n",
     # a nested class used from another module
     "nestdef.py": "class NestedOuter:\n    class NestedInner:\n        pass\n",
     "nestuse.py": "from clomisc.nestdef import NestedOuter\n\n\ndef nested_use(i: NestedOuter.NestedInner) -> NestedOuter:\n    ...\n",
@@ -144,7 +148,8 @@ def run_obs(r, scen_by_id, nc) -> dict:
                     refs.append({"name": x["name"], "pos": x["pos"], "tparam": x["tparam"], "kind": "u3",
                                  "sc": {"t": u["t"], "via": u["via"], "second": u.get("second", {}).get("segs") or [], "own": u["own"] and "ownref" in rel or (u["own"] and "refmod" not in rel)}})
                 else:
-                    shape = next((k for k in ("Rootrx", "Prefixsib", "Nested") if x["name"].startswith(k)), "")
+                    shape = next((k for k in ("Rootrx", "Prefixsib", "Nested", "Exccls") if x["name"].startswith(k)), "")
+                    shape = "rawbuiltin" if x["name"].lower() in ("bytes", "object", "complex") else shape
                     shape = "samesuffix" if x["name"] == "Decimal" and "money" in rel else shape.lower()
                     refs.append({"name": x["name"], "pos": x["pos"], "tparam": x["tparam"],
                                  "kind": (shape or ("generic-foreign" if x["args"] else "foreign")) + ":" + x["pos"], "sc": {"t": None_T, "via": "def", "own": False, "second": []}})
@@ -152,7 +157,7 @@ def run_obs(r, scen_by_id, nc) -> dict:
         for frm, name, alias in f.imports:
             m = SFX.search(name)
             u = scen_by_id.get(int(m.group(1))) if m else None
-            shape = next((k.lower() for k in ("Rootrx", "Prefixsib", "Nested") if name.startswith(k)), "")
+            shape = next((k.lower() for k in ("Rootrx", "Prefixsib", "Nested", "Exccls") if name.startswith(k)), "")
             shape = "samesuffix" if name == "Decimal" and "money" in rel else shape
             imports.append({"from": frm, "name": alias or name, "kind": "u3" if u else (shape or "foreign"),
                             "sc": {"t": u["t"], "via": u["via"], "own": False, "second": u.get("second", {}).get("segs") or []} if u else {"t": None_T, "via": "def", "own": False, "second": []}})
